@@ -262,6 +262,7 @@ func (d *Describer) eval(v ssa.Value, s Sigma, blk *ssa.BasicBlock, pred int, de
 // Reach is the result of one walk.
 type Reach struct {
 	Blocks map[*ssa.BasicBlock]bool
+	Edges  map[[2]int]bool // (pred index, block index) edges taken
 }
 
 func (r *Reach) Has(in ssa.Instruction) bool { return in != nil && r.Blocks[in.Block()] }
@@ -278,7 +279,7 @@ func (d *Describer) Walk(fn *ssa.Function, s Sigma, from *ssa.BasicBlock, stop m
 		from = fn.Blocks[0]
 	}
 	seen := map[st]bool{}
-	r := &Reach{Blocks: map[*ssa.BasicBlock]bool{}}
+	r := &Reach{Blocks: map[*ssa.BasicBlock]bool{}, Edges: map[[2]int]bool{}}
 	work := []st{{from, -1}}
 	for len(work) > 0 {
 		c := work[len(work)-1]
@@ -311,6 +312,9 @@ func (d *Describer) Walk(fn *ssa.Function, s Sigma, from *ssa.BasicBlock, stop m
 					// a block may be both successors of an If; either index gives the same φ only if equal, keep first
 					break
 				}
+			}
+			if !(stop[sb] && sb != from) {
+				r.Edges[[2]int{c.b.Index, sb.Index}] = true
 			}
 			work = append(work, st{sb, pi})
 		}
